@@ -140,7 +140,12 @@ func replayMain(t *testing.T, spec *Spec, prop, tier string) {
 			fmt.Println("  |", l)
 		}
 	}
-	out := map[string]any{"log_hash": d.LogHash(), "violation": d.V, "steps": len(d.Steps)}
+	out := map[string]any{"log_hash": d.LogHash(), "violation": d.V, "steps": len(d.Steps), "findings": d.Findings}
+	if rf.Violation != nil {
+		if v := d.has(rf.Violation.Invariant, rf.Violation.Signature); v != nil {
+			out["violation"] = v
+		}
+	}
 	b, _ := json.Marshal(out)
 	fmt.Printf("REPLAY-RESULT %s\n", b)
 	if p := os.Getenv("VERIF_OUT"); p != "" {
@@ -195,6 +200,8 @@ func batchMain(t *testing.T, spec *Spec, prop, tier string) {
 		_ = os.WriteFile(out, b, 0o644)
 	}
 	k := int64(0)
+	nviol := 0
+	findingSeen := map[string]bool{}
 	for i := worker; i < total; i += nworkers {
 		if time.Since(start) > budget {
 			sum.BudgetHit = true
@@ -250,10 +257,20 @@ func batchMain(t *testing.T, spec *Spec, prop, tier string) {
 			}
 		}
 		if d.V != nil {
-			rec := reportViolation(t, spec, d, replayDir)
+			rec := reportViolation(t, spec, d, d.V, replayDir)
 			sum.Violations = append(sum.Violations, rec)
-			if len(sum.Violations) >= 3 {
+			nviol++
+			if nviol >= 3 {
 				break
+			}
+		}
+		for i := range d.Findings {
+			f := d.Findings[i]
+			key := f.Invariant + "|" + f.Signature
+			sum.Probes["finding:"+key]++
+			if !findingSeen[key] { // minimise and report each finding class once per worker
+				findingSeen[key] = true
+				sum.Violations = append(sum.Violations, reportViolation(t, spec, d, &f, replayDir))
 			}
 		}
 		if k%50 == 0 {
@@ -263,12 +280,16 @@ func batchMain(t *testing.T, spec *Spec, prop, tier string) {
 	flush()
 }
 
-func reportViolation(t *testing.T, spec *Spec, d *D, dir string) ViolationRec {
+func reportViolation(t *testing.T, spec *Spec, d *D, target *Violation, dir string) ViolationRec {
 	orig := append([]Step(nil), d.Steps...)
-	steps, v, hash, tail := Minimise(t, spec, d)
+	steps, v, hash, tail := Minimise(t, spec, d, target)
 	rf := &ReplayFile{Property: d.Prop, Sim: spec.Sim, Seed: d.Seed, Config: d.Cfg, Steps: steps, Violation: v,
 		EventLog: hash, Minimised: len(steps) < len(orig), OrigSteps: len(orig), FaultsSeen: d.Faults, TailOfLog: tail}
-	path := filepath.Join(dir, fmt.Sprintf("%s-%d.json", d.Prop, d.Seed))
+	name := fmt.Sprintf("%s-%d", d.Prop, d.Seed)
+	if d.V == nil || target != d.V {
+		name += "-" + sanitize(target.Signature)
+	}
+	path := filepath.Join(dir, name+".json")
 	rf.ReplayCmd = "./run.sh replay " + path
 	if err := WriteReplay(path, rf); err != nil {
 		fmt.Printf("INFRA cannot write replay: %v\n", err)
@@ -277,16 +298,26 @@ func reportViolation(t *testing.T, spec *Spec, d *D, dir string) ViolationRec {
 	// keep the un-minimised program next to it
 	if rf.Minimised {
 		full := *rf
-		full.Steps, full.Minimised, full.Violation = orig, false, d.V
+		full.Steps, full.Minimised, full.Violation = orig, false, target
 		full.EventLog = d.LogHash()
-		_ = WriteReplay(filepath.Join(dir, fmt.Sprintf("%s-%d.full.json", d.Prop, d.Seed)), &full)
+		_ = WriteReplay(filepath.Join(dir, name+".full.json"), &full)
 	}
 	return ViolationRec{Seed: d.Seed, Violation: *v, Replay: path, Steps: len(steps), OrigSteps: len(orig), LogHash: hash}
 }
 
 // Minimise shrinks the step list by delta debugging, then simplifies step arguments, accepting a
 // candidate only if the same (invariant, signature) still fails. Budget: 400 executions or 90 s.
-func Minimise(t *testing.T, spec *Spec, d *D) ([]Step, *Violation, string, []string) {
+func sanitize(s string) string {
+	b := []byte(s)
+	for i, c := range b {
+		if !(c >= 'a' && c <= 'z' || c >= 'A' && c <= 'Z' || c >= '0' && c <= '9' || c == '-') {
+			b[i] = '_'
+		}
+	}
+	return string(b)
+}
+
+func Minimise(t *testing.T, spec *Spec, d *D, target *Violation) ([]Step, *Violation, string, []string) {
 	best := append([]Step(nil), d.Steps...)
 	// canonical re-execution of the full program in replay mode (also proves replayability)
 	deadline := time.Now().Add(90 * time.Second)
@@ -299,15 +330,13 @@ func Minimise(t *testing.T, spec *Spec, d *D) ([]Step, *Violation, string, []str
 			return nil, ""
 		}
 		lastTail = d2.Tail()
-		return d2.V, d2.LogHash()
+		return d2.has(target.Invariant, target.Signature), d2.LogHash()
 	}
-	same := func(v *Violation) bool {
-		return v != nil && v.Invariant == d.V.Invariant && v.Signature == d.V.Signature
-	}
+	same := func(v *Violation) bool { return v != nil }
 	v0, h0 := try(best)
 	if !same(v0) {
 		// replay of the recorded program does not reproduce: report un-minimised; orchestrator flags it
-		return best, d.V, d.LogHash(), d.Tail()
+		return best, target, d.LogHash(), d.Tail()
 	}
 	bestV, bestH := v0, h0
 	bestTail := lastTail
